@@ -12,6 +12,7 @@ estimator / loss / algorithm objects.
 """
 import copy
 import math
+import os
 
 import numpy as np
 
@@ -24,7 +25,7 @@ ID = "C10"
 RULE = ("data per (type, outcome count, system): EVERY count table with N shots per schedule for the stated N (index = mixed radix over "
         "the compositions of N, empty outcomes included); for types with >= 12 schedules the one-shot tables x(s)=(t[s%g]+c*(s//g))%outcomes "
         "(g = number of tester POVMs) for all t, c in the stated range; exact Born distributions (reference model) of every alphabet object "
-        "(interior, boundary, pure); 8 fixed improper vectors (zero, unnormalised, negative entries up to -50, scaled by 10); "
+        "(interior, boundary, pure); 8 fixed improper vectors of magnitude <= 10 (zero, unnormalised, negative entries, scaled by 10; given to the projected linear estimator and the squared-error losses); "
         "x flag x projection order x estimator configuration; non-trivial = the reference linear estimate is not physical "
         "(projection moves it) or the data are exact data of a boundary object; distinct = distinct (configuration, estimator, data)")
 ASSUMPTIONS = ["testers: Pauli / 4 mutually unbiased bases (qutrit) projective POVMs and the d^2 states |k>, (|j>+|k>)/sqrt2, (|j>+i|k>)/sqrt2; "
@@ -59,9 +60,12 @@ _WORST = {}
 _TRACE = []
 
 
-def ratio(out, key, r):
+def ratio(out, key, r, note=""):
     """bucketed exceedance counters (the evidence sums counters, so a maximum is recorded as buckets)"""
     out.count(key + "_checked")
+    if r > 2 and os.environ.get("C10_TRACE_FILE"):
+        with open(os.environ["C10_TRACE_FILE"], "a") as fh:
+            fh.write("%.3g\t%s\t%s\n" % (r, key, note))
     for thr in (0.1, 0.5, 1, 2, 5, 10, 50):
         if r > thr:
             out.count("%s_ratio_gt_%g" % (key, thr))
@@ -150,8 +154,17 @@ def config_product(level, kind=None, sysname=None):
                 out.append((a, l, "default", "eq_ineq"))
         out.append(("pgdb", "se_fast", "var", "ineq_eq"))
         out.append(("fista", "re_fast", "tuned", "ineq_eq"))
+    elif level == "pair":
+        for a in ("pgdb", "fista"):
+            for l in ("se_fast", "re_fast"):
+                out.append((a, l, "default", "eq_ineq"))
+        out.append(("pgdm", "se_fast", "default", "eq_ineq"))
     else:
         raise ValueError(level)
+    if level != "full":
+        # bulk runs: momentum with the default criterion is bounded at 100 iterations except for its squared-error / eq_ineq run
+        out = [(a, l, "default100" if (a == "pgdm" and o == "default" and not (l == "se_fast" and order == "eq_ineq")) else o, order)
+               for (a, l, o, order) in out]
     return out
 
 
@@ -160,10 +173,10 @@ def lossmin_plan(tier):
     q = [("state", "Q1", None, [("exact",), ("far",), ("tab", 1)], "full", 8),
          ("state", "Q1", None, [("tab", 2), ("tab", 3)], "fast", 32),
          ("povm", "Q1", 2, [("exact",), ("far",), ("tab", 1)], "reduced", 8),
-         ("povm", "Q1", 2, [("tab", 2)], "light", 27),
+         ("povm", "Q1", 2, [("tab", 2)], "pair", 27),
          ("povm", "Q1", 3, [("exact",), ("st", 3, 3)], "light", 9),
          ("gate", "Q1", None, [("exact",), ("far",), ("st", 2, 2)], "reduced", 8),
-         ("mprocess", "Q1", 2, [("exact",), ("far",), ("st", 2, 1)], "light", 4),
+         ("mprocess", "Q1", 2, [("exact",), ("st", 2, 1)], "light", 4),
          ("state", "Q3", None, [("exact",), ("far",), ("tab", 1)], "fast", 27),
          ("povm", "Q3", 2, [("exact",), ("st", 2, 2)], "light", 8),
          ("gate", "Q3", None, [("exact",), ("st", 2, 1)], "light", 4)]
@@ -431,7 +444,7 @@ def judge_lm(out, T, res, info, algo, site, where, dcls, xtrue, pre_ok, txt, pre
     eqd, me = verdict(F, x, info, flag)
     if both:
         out.count(prefix + "_physical_checked")
-        ratio(out, prefix + "_physical", max(eqd, -me, 0.0) / sqp)
+        ratio(out, prefix + "_physical", max(eqd, -me, 0.0) / sqp, site + " " + where)
         out.count(prefix + "_boundary_estimates" if me < 1e-6 else prefix + "_interior_estimates")
     elif eqd is not None and me is None and not flag:
         out.count(prefix + "_eq_only_checked")
@@ -497,7 +510,7 @@ def judge_lm(out, T, res, info, algo, site, where, dcls, xtrue, pre_ok, txt, pre
         else:
             acc, cst = max(math.sqrt(info["eps"]), T.epsp ** 0.25), CEXACT_RE
         bnd = "boundary" if is_boundary(F, xtrue) else "interior"
-        ratio(out, "%s_exact_%s_%s" % (prefix, info["loss"][:2], bnd), e2 / acc)
+        ratio(out, "%s_exact_%s_%s" % (prefix, info["loss"][:2], bnd), e2 / acc, site + " " + where)
         if len(_TRACE) < 100000:
             _TRACE.append((e2 / acc, site, where, None if dr is None else dr.k))
         out.count(prefix + "_exact_checked")
@@ -533,8 +546,8 @@ def ex_lossmin(p, seed):
                 out.count("exact_boundary_objects" if is_boundary(F, xtrue) else "exact_interior_objects")
                 pre_ok = consistent_with_born(T, ps, xtrue) <= 1e-9       # reported by the plin family
             if dcls == "improper":
-                if loss.startswith("re_") and name.split(":")[1] in S.FAR_NEGATIVE:
-                    out.count("lm_negative_data_not_given_to_entropy")      # the relative entropy of negative "frequencies" is not defined
+                if loss.startswith("re_"):
+                    out.count("lm_improper_data_not_given_to_entropy")      # the relative entropy is defined for distributions only
                     continue
                 out.count("lm_improper")
             algo_obj, opt, info = S.algo_option(algo, optset, order, T, seed)
